@@ -185,6 +185,11 @@ def check_property(pid, tier, only_group=None, only_unit=None, verbose=False):
             k = known_match(known, pid, r['group'], r['name'].split('@')[0], ob)
             if k:
                 known_hits.append((k, ob))
+                if not is_bounded and not u.get('_second'):
+                    # an obligation that fails as a recorded known finding is neither claimed nor counted as discharged
+                    n_ob -= 1
+                    row['obligations'] -= 1
+                    row.setdefault('failing_as_known_finding', []).append(ob['name'][:200])
             else:
                 real_P.append(ob)
         if real_P:
@@ -259,9 +264,10 @@ def check_property(pid, tier, only_group=None, only_unit=None, verbose=False):
             vacuity=dict(canaries=n_canary, canaries_failing_as_required=n_canary_ok),
             solver_time_s=round(solver_time, 2),
             extraction_drops=drops,
-            known_findings=[k['id'] for k, _ in known_hits],
+            known_findings=sorted(set(k['id'] for k, _ in known_hits)),
+            obligations_failing_as_known_findings=[dict(finding=k['id'], obligation=ob['name'][:300]) for k, ob in known_hits],
             undecided=undecided,
-            rule='obligations = CBMC properties of the unbounded (contract / lemma) units, excluding vacuity canaries; bounded units and second-back-end runs are listed separately and not counted',
+            rule='obligations = CBMC properties of the unbounded (contract / lemma) units, excluding vacuity canaries; bounded units and second-back-end runs are listed separately and not counted; an obligation that FAILS and matches a recorded known finding (known_findings.json) is listed under obligations_failing_as_known_findings and is neither claimed nor counted here',
         ),
         assumptions=assumptions,
         wall_s=round(time.time() - t0, 2),
